@@ -275,6 +275,7 @@ func RunC20(c *Ctx, r *Report) {
 		} else {
 			r.bad(prefix+"protect.modset", "ike.encryptMsg", c.Pos(em.Pos()), "protecting a message may also write "+strings.Join(bad, ", "))
 		}
+		c.protectListFreshRule(r, prefix+"protect.list-rebuilt-from-nil", em)
 		// the payload objects themselves: encryptMsg must not store into fields of existing payloads — covered by the
 		// mod-set (no field:message.<Payload>.* other than Encrypted, whose only allocation site is BuildEncrypted).
 	} else {
@@ -747,4 +748,138 @@ func (c *Ctx) bookkeepingRecomputedRule(r *Report, prefix string, escope []*ssa.
 			}
 		}
 	}
+}
+
+
+// protectListFreshRule: the payload list a protected message ends up with is a NEW list. encryptMsg keeps
+// the old list (ikePayloads := ikeMsg.Payloads) and the caller may still hold the slice it built the
+// message from; appending the Encrypted payload onto a list that was merely truncated ([:0]) would write
+// into that shared storage. So every write to the message's payload list in encryptMsg is either "set to
+// nil" (directly or by a callee whose only store is the nil constant) or an append, and the first append is
+// dominated by a set-to-nil with no other write in between.
+func (c *Ctx) protectListFreshRule(r *Report, rule string, em *ssa.Function) {
+	r.Rule(rule, "protecting a message builds its new payload list from nil: the list field is set to nil (by a store or by a callee whose only store through its receiver is the nil constant) before the Encrypted payload is appended, so the append cannot write into the storage of the old list", 1)
+	isListAddr := func(v ssa.Value) bool {
+		fa, ok := v.(*ssa.FieldAddr)
+		return ok && strings.HasSuffix(FieldKey(fa.X.Type(), fa.Field), "message.IKEMessage.Payloads")
+	}
+	// classify a callee that receives the list's address as argument i
+	classify := func(g *ssa.Function, i int) string {
+		if g == nil || g.Blocks == nil || i >= len(g.Params) {
+			return "unknown"
+		}
+		p := g.Params[i]
+		kind := "reads"
+		for _, b := range g.Blocks {
+			for _, ins := range b.Instrs {
+				switch x := ins.(type) {
+				case *ssa.Store:
+					if x.Addr != ssa.Value(p) {
+						continue
+					}
+					if isNilConst(x.Val) {
+						if kind == "reads" {
+							kind = "nil"
+						}
+						continue
+					}
+					if ap := isAppendCall(x.Val); ap != nil {
+						if u, ok := ap.Call.Args[0].(*ssa.UnOp); ok && u.X == ssa.Value(p) {
+							if kind != "other" {
+								kind = "append"
+							}
+							continue
+						}
+					}
+					kind = "other"
+				case ssa.CallInstruction:
+					for _, a := range x.Common().Args {
+						if a == ssa.Value(p) {
+							if _, bi := x.Common().Value.(*ssa.Builtin); !bi {
+								for _, m := range c.CalleesAt(x).Mod {
+									if c.ModSet(m)["deref:message.IKEPayloadContainer"] {
+										kind = "other"
+									}
+								}
+							}
+						}
+					}
+				}
+			}
+		}
+		return kind
+	}
+	type ev struct {
+		ins  ssa.Instruction
+		kind string
+	}
+	var evs []ev
+	for _, b := range em.Blocks {
+		for _, ins := range b.Instrs {
+			switch x := ins.(type) {
+			case *ssa.Store:
+				if !isListAddr(x.Addr) {
+					continue
+				}
+				switch {
+				case isNilConst(x.Val):
+					evs = append(evs, ev{ins, "nil"})
+				case isAppendCall(x.Val) != nil:
+					evs = append(evs, ev{ins, "append"})
+				default:
+					evs = append(evs, ev{ins, "other"})
+				}
+			case ssa.CallInstruction:
+				if _, bi := x.Common().Value.(*ssa.Builtin); bi {
+					continue
+				}
+				for i, a := range x.Common().Args {
+					if !isListAddr(a) {
+						continue
+					}
+					k := "reads"
+					for _, m := range c.CalleesAt(x).Mod {
+						if kk := classify(m, i); kk != "reads" {
+							k = kk
+						}
+					}
+					if k != "reads" {
+						evs = append(evs, ev{ins, k})
+					}
+				}
+			}
+		}
+	}
+	var firstAppend ssa.Instruction
+	for _, e := range evs {
+		if e.kind == "other" || e.kind == "unknown" {
+			r.bad(rule, "ike.encryptMsg: "+c.SrcExpr(e.ins), c.InstrPos(e.ins), "the message's payload list is written in a way that is neither 'set to nil' nor an append")
+			return
+		}
+	}
+	for _, e := range evs {
+		if e.kind != "append" {
+			continue
+		}
+		dominatedByAll := true
+		for _, o := range evs {
+			if o.kind == "append" && o.ins != e.ins && !dominatesInstr(e.ins, o.ins) {
+				dominatedByAll = false
+			}
+		}
+		if dominatedByAll {
+			firstAppend = e.ins
+		}
+	}
+	if firstAppend == nil {
+		r.undecided(rule, "ike.encryptMsg", c.Pos(em.Pos()), "no first append of the new payload list found")
+		return
+	}
+	for _, e := range evs {
+		if e.kind == "nil" && dominatesInstr(e.ins, firstAppend) {
+			r.ok(rule, "ike.encryptMsg: "+c.SrcExpr(firstAppend), c.InstrPos(firstAppend), "the list is nil at this append (set to nil at "+c.InstrPos(e.ins)+", no other write in between): the append allocates new storage", true)
+			return
+		}
+	}
+	r.bad(rule, "ike.encryptMsg: "+c.SrcExpr(firstAppend), c.InstrPos(firstAppend), "the new payload list is appended onto the old list's storage: nothing sets the list to nil before this append (a truncation to length 0 keeps the backing array, which the caller's slice and the saved old list still share)")
 }
